@@ -216,3 +216,16 @@ def ref_decode(codec: str, data: bytes, limit: int = 1 << 31) -> tuple[str, byte
         return "bad", bytes(out), 0
     unused = len(d.unused_data) + (len(data) - pos)
     return "ok", bytes(out), unused
+
+
+def zstd_declared_size(data: bytes) -> int | None:
+    """Frame_Content_Size claimed by the header of ``data`` (None: absent or header unreadable)."""
+    import zstandard
+
+    try:
+        size = zstandard.get_frame_parameters(data).content_size
+    except zstandard.ZstdError:
+        return None
+    if size in (-1, 0xFFFFFFFFFFFFFFFF):
+        return None
+    return int(size)
